@@ -98,9 +98,24 @@ struct Driver {
     seed: u64,
     slots: HashMap<String, Vec<u8>>,
     mem: HashMap<String, Box<dyn Any>>, // SigningKey<H> objects
-    out: BufWriter<std::fs::File>,
+    out: Box<dyn Write>,
     next_id: u64,
     heartbeat: Arc<AtomicU64>,
+    /// extra fields added to every event (thread / process tag of C09's parallel scenarios)
+    tag: Option<(String, Value)>,
+}
+
+/// an in-memory event sink that can be read back after a worker thread finished
+#[derive(Clone)]
+struct SharedBuf(Arc<std::sync::Mutex<Vec<u8>>>);
+impl Write for SharedBuf {
+    fn write(&mut self, b: &[u8]) -> std::io::Result<usize> {
+        self.0.lock().unwrap().extend_from_slice(b);
+        Ok(b.len())
+    }
+    fn flush(&mut self) -> std::io::Result<()> {
+        Ok(())
+    }
 }
 
 fn now_ms() -> u64 {
@@ -111,7 +126,10 @@ fn now_ms() -> u64 {
 }
 
 impl Driver {
-    fn emit(&mut self, v: Value) {
+    fn emit(&mut self, mut v: Value) {
+        if let (Some((k, t)), Some(o)) = (&self.tag, v.as_object_mut()) {
+            o.insert(k.clone(), t.clone());
+        }
         serde_json::to_writer(&mut self.out, &v).unwrap();
         self.out.write_all(b"\n").unwrap();
     }
@@ -336,6 +354,9 @@ fn copy_meta(cmd: &Value, ev: &mut Map<String, Value>) {
     }
     if let Some(m) = cmd.get("bad") {
         ev.insert("bad".into(), m.clone());
+    }
+    if let Some(m) = cmd.get("start_ctr") {
+        ev.insert("start_ctr".into(), m.clone());
     }
 }
 
@@ -900,6 +921,128 @@ macro_rules! dispatch {
     };
 }
 
+fn exec(d: &mut Driver, cmd: &Value) {
+    let op = cmd["op"].as_str().unwrap().to_string();
+    match op.as_str() {
+        "reset" => {
+            d.slots.clear();
+            d.mem.clear();
+            let mut ev = Map::new();
+            ev.insert("ev".into(), json!("reset"));
+            copy_meta(cmd, &mut ev);
+            d.emit(Value::Object(ev));
+        }
+        // the process "dies": every in-memory SigningKey object is gone, slots (storage) stay
+        "crash" => {
+            d.mem.clear();
+            let mut ev = Map::new();
+            ev.insert("ev".into(), json!("crash"));
+            copy_meta(cmd, &mut ev);
+            d.emit(Value::Object(ev));
+        }
+        "set" => {
+            let v = d.bytes(&cmd["value"]);
+            d.slots.insert(cmd["slot"].as_str().unwrap().to_string(), v);
+        }
+        // C09: the same commands from n concurrent threads, each with its own copy of the slots;
+        // events carry the thread number and are written thread by thread after the join (no
+        // cross-thread order is claimed: the specification has no cross-key state)
+        "threads" => {
+            let n = cmd["n"].as_u64().unwrap() as usize;
+            let cmds: Vec<Value> = cmd["cmds"].as_array().unwrap().clone();
+            let mut handles = Vec::new();
+            for t in 0..n {
+                let slots = d.slots.clone();
+                let cmds = cmds.clone();
+                let seed = d.seed;
+                let hb = d.heartbeat.clone();
+                let buf = SharedBuf(Arc::new(std::sync::Mutex::new(Vec::new())));
+                let buf2 = buf.clone();
+                let h = std::thread::Builder::new()
+                    .stack_size(256 << 20)
+                    .spawn(move || {
+                        let mut td = Driver {
+                            seed,
+                            slots,
+                            mem: HashMap::new(),
+                            out: Box::new(buf2),
+                            next_id: 1000 * (t as u64 + 1),
+                            heartbeat: hb,
+                            tag: Some(("thread".to_string(), json!(t))),
+                        };
+                        for c in cmds.iter() {
+                            exec(&mut td, c);
+                        }
+                    })
+                    .unwrap();
+                handles.push((h, buf));
+            }
+            for (h, buf) in handles {
+                h.join().expect("driver: worker thread failed");
+                let bytes = buf.0.lock().unwrap().clone();
+                d.out.write_all(&bytes).unwrap();
+            }
+        }
+        // C09: the same commands in a freshly started process (slots are handed over as literals)
+        "subprocess" => {
+            let dir = std::env::temp_dir().join(format!("verif-sub-{}-{}", std::process::id(), d.next_id));
+            std::fs::create_dir_all(&dir).unwrap();
+            let scen = dir.join("scenario.ndjson");
+            let trace = dir.join("trace.ndjson");
+            {
+                let mut f = std::fs::File::create(&scen).unwrap();
+                for (k, v) in d.slots.iter() {
+                    writeln!(f, "{}", json!({"op":"set","slot":k,"value":hex(v)})).unwrap();
+                }
+                for c in cmd["cmds"].as_array().unwrap() {
+                    writeln!(f, "{}", c).unwrap();
+                }
+            }
+            let st = std::process::Command::new(std::env::current_exe().unwrap())
+                .arg(&scen)
+                .arg(&trace)
+                .arg(d.seed.to_string())
+                .status()
+                .expect("driver: cannot start child process");
+            assert!(st.success(), "driver: child process failed");
+            for line in std::io::BufReader::new(std::fs::File::open(&trace).unwrap()).lines() {
+                let mut v: Value = serde_json::from_str(&line.unwrap()).unwrap();
+                v.as_object_mut().unwrap().insert("process".into(), json!("child"));
+                d.emit(v);
+            }
+            let _ = std::fs::remove_dir_all(&dir);
+            d.next_id += 1;
+        }
+        "info" => {
+            let ev = json!({"ev":"info",
+                "fast_verify": cfg!(feature = "fast_verify"),
+                "verbose": cfg!(feature = "verbose"),
+                "max_sig_len": hbs_lms_max_sig_len(),
+                "env": {
+                    "levels": option_env!("HBS_LMS_MAX_ALLOWED_HSS_LEVELS"),
+                    "heights": option_env!("HBS_LMS_TREE_HEIGHTS"),
+                    "winternitz": option_env!("HBS_LMS_WINTERNITZ_PARAMETERS"),
+                    "threads": option_env!("HBS_LMS_THREADS"),
+                    "max_hash_optimizations": option_env!("HBS_LMS_MAX_HASH_OPTIMIZATIONS"),
+                }});
+            d.emit(ev);
+        }
+        _ => {
+            let alg = cmd["alg"].as_str().expect("alg").to_string();
+            match op.as_str() {
+                "keygen" => dispatch!(alg.as_str(), op_keygen, d, cmd),
+                "sign" | "sign_mut" => dispatch!(alg.as_str(), op_sign, d, cmd),
+                "verify" => dispatch!(alg.as_str(), op_verify, d, cmd),
+                "lifetime" => dispatch!(alg.as_str(), op_lifetime, d, cmd),
+                "load" => dispatch!(alg.as_str(), op_load, d, cmd),
+                "persist" => dispatch!(alg.as_str(), op_persist, d, cmd),
+                "hook" => dispatch!(alg.as_str(), op_hook, d, cmd),
+                other => panic!("driver: unknown op {}", other),
+            }
+        }
+    }
+}
+
 fn run(scenario: &str, out: &str, seed: u64, heartbeat: Arc<AtomicU64>) {
     let f = std::fs::File::open(scenario).expect("scenario file");
     let out = BufWriter::new(std::fs::File::create(out).expect("trace file"));
@@ -907,9 +1050,10 @@ fn run(scenario: &str, out: &str, seed: u64, heartbeat: Arc<AtomicU64>) {
         seed,
         slots: HashMap::new(),
         mem: HashMap::new(),
-        out,
+        out: Box::new(out),
         next_id: 1,
         heartbeat,
+        tag: None,
     };
     for line in std::io::BufReader::new(f).lines() {
         let line = line.unwrap();
@@ -918,56 +1062,7 @@ fn run(scenario: &str, out: &str, seed: u64, heartbeat: Arc<AtomicU64>) {
         }
         let cmd: Value = serde_json::from_str(&line).expect("scenario json");
         d.heartbeat.store(now_ms(), Ordering::SeqCst);
-        let op = cmd["op"].as_str().unwrap().to_string();
-        match op.as_str() {
-            "reset" => {
-                d.slots.clear();
-                d.mem.clear();
-                let mut ev = Map::new();
-                ev.insert("ev".into(), json!("reset"));
-                copy_meta(&cmd, &mut ev);
-                d.emit(Value::Object(ev));
-            }
-            // the process "dies": every in-memory SigningKey object is gone, slots (storage) stay
-            "crash" => {
-                d.mem.clear();
-                let mut ev = Map::new();
-                ev.insert("ev".into(), json!("crash"));
-                copy_meta(&cmd, &mut ev);
-                d.emit(Value::Object(ev));
-            }
-            "set" => {
-                let v = d.bytes(&cmd["value"]);
-                d.slots.insert(cmd["slot"].as_str().unwrap().to_string(), v);
-            }
-            "info" => {
-                let ev = json!({"ev":"info",
-                    "fast_verify": cfg!(feature = "fast_verify"),
-                    "verbose": cfg!(feature = "verbose"),
-                    "max_sig_len": hbs_lms_max_sig_len(),
-                    "env": {
-                        "levels": option_env!("HBS_LMS_MAX_ALLOWED_HSS_LEVELS"),
-                        "heights": option_env!("HBS_LMS_TREE_HEIGHTS"),
-                        "winternitz": option_env!("HBS_LMS_WINTERNITZ_PARAMETERS"),
-                        "threads": option_env!("HBS_LMS_THREADS"),
-                        "max_hash_optimizations": option_env!("HBS_LMS_MAX_HASH_OPTIMIZATIONS"),
-                    }});
-                d.emit(ev);
-            }
-            _ => {
-                let alg = cmd["alg"].as_str().expect("alg").to_string();
-                match op.as_str() {
-                    "keygen" => dispatch!(alg.as_str(), op_keygen, &mut d, &cmd),
-                    "sign" | "sign_mut" => dispatch!(alg.as_str(), op_sign, &mut d, &cmd),
-                    "verify" => dispatch!(alg.as_str(), op_verify, &mut d, &cmd),
-                    "lifetime" => dispatch!(alg.as_str(), op_lifetime, &mut d, &cmd),
-                    "load" => dispatch!(alg.as_str(), op_load, &mut d, &cmd),
-                    "persist" => dispatch!(alg.as_str(), op_persist, &mut d, &cmd),
-                    "hook" => dispatch!(alg.as_str(), op_hook, &mut d, &cmd),
-                    other => panic!("driver: unknown op {}", other),
-                }
-            }
-        }
+        exec(&mut d, &cmd);
         d.out.flush().unwrap();
     }
     d.heartbeat.store(u64::MAX, Ordering::SeqCst);
